@@ -468,7 +468,10 @@ Section Front.
                       (* wbxml_tree_add_tree, current = the TREE node, skip_lvl = 0, then the tail of the callback
                          goes back to the TREE node's parent *)
                       match c_spine c with
-                      | [] => set_error c E_OUTSIDE_MODEL
+                      | [] => match c_root c with
+                              | Some _ => set_error c E_INTERNAL            (* wbxml_tree_add_tree fails: there is a root already *)
+                              | None => set_error c E_OUTSIDE_MODEL         (* the TREE node would become the root and `current` *)
+                              end
                       | f :: up => set_skip (set_spine c (add_kid f (NTree (xt_lang t) (xt_roots t)) :: up)) 0 (c_skip_start c)
                       end
                     end
